@@ -382,15 +382,18 @@ class AntexParser(ChainParser):
                     tmp["valid_until"] = datetime.datetime.now()
 
             # Determine elevation list
+            #
+            # NOTE: The number of grid points is determined by counting the steps between ZEN1 and ZEN2. With
+            #       np.arange(start, stop, step) the number of points depends on rounding errors for steps like 0.1.
             if cache["dzen"] != 0.0:
-                tmp["elevation"] = np.arange(
-                    90.0 - cache["zen1"], 90.0 - (cache["zen2"] + cache["dzen"]), -cache["dzen"]
-                )
+                num_zen = int(round((cache["zen2"] - cache["zen1"]) / cache["dzen"])) + 1
+                tmp["elevation"] = 90.0 - cache["zen1"] - cache["dzen"] * np.arange(num_zen)
                 tmp["elevation"] = np.radians(tmp["elevation"])
 
             # Determine azimuth list
             if cache["dazi"] != 0.0:
-                tmp["azimuth"] = np.arange(0, 360 + cache["dazi"], cache["dazi"])
+                num_azi = int(round(360.0 / cache["dazi"])) + 1
+                tmp["azimuth"] = cache["dazi"] * np.arange(num_azi)
                 tmp["azimuth"] = np.radians(tmp["azimuth"])
 
         # Save frequency dependent antenna corrections
